@@ -7,10 +7,16 @@ package childqueues_updater
 
 // Property C20 ("a Queue's reported values ... child queues at every level of the hierarchy"; "reconciling again without
 // change leaves every object unchanged"): the reported child-queue names are exactly the names of the listed queues
-// that name this queue as their parent (the index may be stale: re-checked by name) - as many entries as there are such
-// queues, every entry is one of them, every one of them is an entry; a failed List leaves the status untouched.
+// that name this queue as their parent (the index may be stale: re-checked by name): as a MULTISET - every name occurs
+// among the reported names exactly as often as among those queues - and there are as many entries as such queues; a
+// failed List leaves the status untouched.
+// anyName(): an arbitrary, unconstrained string (nullary uninterpreted constant): a clause proved for anyName() holds
+// for EVERY name (stands for `forall s string ::` around the counts; range sums under a binder get no unfolding).
+//@ declare anyName() string
 //@ define isChild(c v2.Queue, parent string) bool = c.Spec.ParentQueue == parent
 //@ define nMatching(n int, parent string) int = count i in range(0, n) :: isChild(rupd.listedQueues().Items[i], parent)
+//@ define nMatchingNamed(n int, parent string, s string) int = count i in range(0, n) :: isChild(rupd.listedQueues().Items[i], parent) && rupd.listedQueues().Items[i].Name == s
+//@ define nNamed(names []string, n int, s string) int = count k in range(0, n) :: names[k] == s
 
 //@ func (*ChildQueuesUpdater).UpdateQueue
 //@   props C20
@@ -20,11 +26,9 @@ package childqueues_updater
 //@     invariant 0 - 1 <= rangeindex && rangeindex < len(childrenQueue.Items)
 //@     invariant rupd.listedQueues() == childrenQueue && childrenQueue != nil && fresh(childrenQueue.Items)
 //@     invariant len(childrenQueueNames) == nMatching(rangeindex + 1, queue.Name)
-//@     invariant forall k int :: 0 <= k && k < len(childrenQueueNames) ==> (exists i int :: 0 <= i && i <= rangeindex && isChild(childrenQueue.Items[i], queue.Name) && childrenQueueNames[k] == childrenQueue.Items[i].Name)
-//@     invariant forall i int :: 0 <= i && i <= rangeindex && isChild(childrenQueue.Items[i], queue.Name) ==> (exists k int :: 0 <= k && k < len(childrenQueueNames) && childrenQueueNames[k] == childrenQueue.Items[i].Name)
+//@     invariant nNamed(childrenQueueNames, len(childrenQueueNames), anyName()) == nMatchingNamed(rangeindex + 1, queue.Name, anyName())
 //@     decreases len(childrenQueue.Items) - rangeindex
 //@   ensures [listErrorKeepsStatus] result != nil ==> queue.Status.ChildQueues == old(queue.Status.ChildQueues)
 //@   ensures [asManyAsChildren] result == nil ==> len(queue.Status.ChildQueues) == nMatching(len(rupd.listedQueues().Items), queue.Name)
-//@   ensures [onlyChildren] result == nil ==> (forall k int :: 0 <= k && k < len(queue.Status.ChildQueues) ==> (exists i int :: 0 <= i && i < len(rupd.listedQueues().Items) && isChild(rupd.listedQueues().Items[i], queue.Name) && queue.Status.ChildQueues[k] == rupd.listedQueues().Items[i].Name))
-//@   ensures [everyChild] result == nil ==> (forall i int :: 0 <= i && i < len(rupd.listedQueues().Items) && isChild(rupd.listedQueues().Items[i], queue.Name) ==> (exists k int :: 0 <= k && k < len(queue.Status.ChildQueues) && queue.Status.ChildQueues[k] == rupd.listedQueues().Items[i].Name))
+//@   ensures [sameNamesAsChildren] result == nil ==> nNamed(queue.Status.ChildQueues, len(queue.Status.ChildQueues), anyName()) == nMatchingNamed(len(rupd.listedQueues().Items), queue.Name, anyName())
 //@ end
